@@ -143,6 +143,27 @@ impl Cov {
     pub fn n_trans(&self) -> usize {
         Self::count(&self.trans)
     }
+    /// The property's own alphabet {next, next_back, len/size_hint, observe, drop}: how many
+    /// (reachable cursor state, operation) pairs were executed, and how many exist.
+    pub fn core_transitions(&self) -> (usize, usize) {
+        let groups: [&[OpK]; 5] = [&[OpK::Next], &[OpK::NextBack], &[OpK::Len, OpK::SizeHint], &[OpK::Observe], &[OpK::Drop]];
+        let (mut hit, mut total) = (0, 0);
+        for s in 0..=self.n {
+            for e in s..=self.n {
+                let c = self.cell(s, e) * N_OPK;
+                for g in groups.iter() {
+                    total += 1;
+                    if g.iter().any(|k| {
+                        let b = c + *k as usize;
+                        self.trans[b / 64] >> (b % 64) & 1 == 1
+                    }) {
+                        hit += 1;
+                    }
+                }
+            }
+        }
+        (hit, total)
+    }
 }
 
 /// Coverage slots: one per kind (for matrices: the outer iterator over its n lines).
